@@ -123,12 +123,11 @@ class Session:
                 undecided.append(r)
         bad_canaries = [r for r in can if r.verdict == 'unsat']
         bad_covers = [r for r in cov if r.verdict == 'unsat']
+        soft_checker = []
         for r in bad_canaries:
-            lines.append(f'CHECKER-ERROR canary {r.ob.name} was NOT refuted: the pipeline is vacuous or unsound')
-            exit_code = max(exit_code, EXIT_CHECKER)
+            soft_checker.append(f'CHECKER-ERROR canary {r.ob.name} was NOT refuted: the pipeline is vacuous or unsound')
         for r in bad_covers:
-            lines.append(f'CHECKER-ERROR cover {r.ob.name}: precondition / path condition unsatisfiable (vacuous)')
-            exit_code = max(exit_code, EXIT_CHECKER)
+            soft_checker.append(f'CHECKER-ERROR cover {r.ob.name}: precondition / path condition unsatisfiable (vacuous)')
         # replay refuted obligations
         os.makedirs(os.path.join(VERIF, 'replays'), exist_ok=True)
         vio_records = []
@@ -177,6 +176,14 @@ class Session:
                 pass
             else:
                 exit_code = EXIT_VIOLATION
+        if soft_checker:
+            # a canary / cover is judged against the current code: when the code itself is refuted the violation
+            # is the verdict; otherwise a canary that verifies means the pipeline cannot be trusted
+            if exit_code == EXIT_VIOLATION:
+                lines.extend('note (violation takes precedence): ' + x for x in soft_checker)
+            else:
+                lines.extend(soft_checker)
+                exit_code = EXIT_CHECKER
         if undecided and exit_code == EXIT_OK:
             exit_code = EXIT_UNDECIDED
         for r in undecided[:20]:
